@@ -15,7 +15,7 @@ RULE = (
     "delivery modes over a read-counting source and, additionally, on EVERY prefix of the stream. "
     "Oracle: (i) at hand-over of token (s,e) (generator item received / callback invoked) the number "
     "of read() calls r satisfies r == e+1 for tokens of max_length frames, e+1 <= r <= e+max(sil,0)+2 "
-    "otherwise, or r == n+1 (end-of-stream flush); (ii) None is returned by the source exactly once and "
+    "otherwise, or r == n+1 when the stream ends before the deciding frame (end-of-stream flush); (ii) None is returned by the source exactly once and "
     "n+1 reads are made in total; (iii) list, generator and callback sequences are identical (same frame "
     "objects); (iv) for every prefix p: tokens(prefix) is a prefix of tokens(whole) except that its last "
     "token may be a same-start shorter version, in which case the prefix ends within max(sil,0) frames of "
@@ -64,8 +64,8 @@ def check_case(case, rec):
         if deliv == "list":
             continue
         for (fr, s, e), r in zip(toks, at):
-            if r == n + 1:
-                continue
+            if r == n + 1 and len(fr) < mx and e + ms + 1 >= n:
+                continue  # really produced by the end-of-stream flush: no deciding frame exists
             if len(fr) == mx:
                 ok = r == e + 1
             else:
